@@ -640,6 +640,26 @@ def stepC20 (ts : List String) : String :=
     | _, _ => "bad-op"
   | _ => "bad-op"
 
+/-- rows are their global index: `C18 rb nsblk nsub s n` / `C18 plan nsblk nsub g s n k` -/
+def stepC18 (ts : List String) : String :=
+  let mk (nsblk nsub : Nat) : List (List Nat) := (List.range nsub).map (fun i => List.range' (i * nsblk) nsblk)
+  match ts with
+  | ["rb", nsblk, nsub, s, n] =>
+    match nsblk.toNat?, nsub.toNat?, s.toInt?, n.toInt? with
+    | some nsblk, some nsub, some s, some n =>
+      (match Pfits.readBlock (mk nsblk nsub) nsblk (nsblk * nsub) s n with
+       | .ok rows => s!"ok {rows.length} {showNats rows}".trimAsciiEnd.toString
+       | .error e => s!"err {e.name}")
+    | _, _, _, _ => "bad-op"
+  | ["plan", nsblk, nsub, g, s, n, k] =>
+    match nsblk.toNat?, nsub.toNat?, g.toNat?, s.toNat?, n.toNat?, k.toNat? with
+    | some nsblk, some nsub, some g, some s, some n, some k =>
+      (match Pfits.readPlan (mk nsblk nsub) nsblk g s n k with
+       | .ok bs => "ok " ++ " ; ".intercalate (bs.map (fun (len, ii, rows) => s!"{len} {ii} {showNats rows}"))
+       | .error e => s!"err {e.name}")
+    | _, _, _, _, _, _ => "bad-op"
+  | _ => "bad-op"
+
 def step (line : String) : String :=
   match (line.trimAscii.toString.splitOn " ").filter (· ≠ "") with
   | "C03" :: rest => stepC03 rest
@@ -658,6 +678,7 @@ def step (line : String) : String :=
   | "C15" :: rest => stepC15 rest
   | "C16" :: rest => stepC16 rest
   | "C20" :: rest => stepC20 rest
+  | "C18" :: rest => stepC18 rest
   | "C04" :: rest => stepC04 rest
   | "C10" :: rest => stepC10 rest
   | _ => "bad-op"
